@@ -153,6 +153,10 @@ func c19Oracle(text string, tags []string, r *Result) {
 	oo := RunVM(opt, defaultOpts())
 	r.Trans(2)
 	if cc := crashClass(oo); cc != "" {
+		if volatile {
+			r.Note("volatile-crash-ignored(closure-capture known finding)", 1)
+			return
+		}
 		r.Fail("OPTIMIZER:optimised program crashes:"+cc, tags, text, oo.String())
 	} else if !same(oo) && !volatile {
 		r.Fail("OPTIMIZER:optimised program behaves differently", tags, text, fmt.Sprintf("original:  %s\noptimised: %s", o0.String(), oo.String()))
